@@ -191,6 +191,7 @@ pub struct ObjRec {
     pub oti: Option<OtiSpec>,
     pub mtc: u32,
     pub carousel: bool,
+    pub flags: u32,
     // shadow life cycle, from API-visible events only
     pub removed: bool,
     pub finished: bool,
@@ -267,6 +268,11 @@ pub struct FdtEngine {
     pub last_poll: Option<u64>,
     pub sup_gap: u64,
     pub sup_ref: Option<u64>,
+    /// idle polls later than publish time + duration - 5 s and before the expiry of the latest publication, and the number of
+    /// instances that were still queued at the first of them (superseded_before_expiry_partial: more due polls than that)
+    pub due_polls: u64,
+    pub due_pending: u64,
+    pub pubs_noted: u64,
     pub admitted_now: bool,
     pub sup_reported: bool,
     pub latest_pub: Option<(u64, u64)>, // (publish time µs, expiry µs) of the latest publication seen (explicit/auto)
@@ -320,6 +326,9 @@ impl FdtEngine {
             last_poll: None,
             sup_gap: 0,
             sup_ref: None,
+            due_polls: 0,
+            due_pending: 0,
+            pubs_noted: 0,
             admitted_now: true,
             sup_reported: false,
             latest_pub: None,
@@ -342,6 +351,9 @@ impl FdtEngine {
         self.last_poll = None;
         self.sup_gap = 0;
         self.sup_ref = None;
+        self.due_polls = 0;
+        self.due_pending = 0;
+        self.pubs_noted = 0;
         self.sup_reported = false;
         self.latest_pub = None;
     }
@@ -370,7 +382,7 @@ impl FdtEngine {
         };
         let mtl = oti.max_transfer_length() as u64;
         let groups_plain = cfg.groups.as_ref().map(|g| g.iter().all(|x| x.chars().all(|c| c >= ' ' && c < '\u{fffe}'))).unwrap_or(true);
-        if groups_plain && mtl >= (1 << 24) && o.b as u64 + o.p as u64 <= 256 && o.enc != 6 && o.enc != 1 && !((o.enc == 5 || o.enc == 129) && o.p == 0) {
+        if groups_plain && mtl >= (1 << 24) && o.b as u64 + o.p as u64 <= 255 && o.enc != 6 && o.enc != 1 && !((o.enc == 5 || o.enc == 129) && o.p == 0) {
             return true; // far above any instance this engine generates: skip the serialisation
         }
         let xml = match guarded(AssertUnwindSafe(|| s.fdt_xml_data(st(now)))) {
@@ -389,11 +401,13 @@ impl FdtEngine {
         if len > mtl {
             return false;
         }
-        let (al, _, _, nb) = hk::block_partitioning(o.b as u64, len, o.e as u64);
+        let (al, asm, nl, nb) = hk::block_partitioning(o.b as u64, len, o.e as u64);
+        let raptor_small = (nl > 0 && (al == 2 || al == 3)) || (nb > nl && (asm == 2 || asm == 3));
         match o.enc {
-            5 | 129 => o.p != 0 && al + o.p as u64 <= 256,
+            5 => o.p != 0 && o.b as u64 + o.p as u64 <= 255 && al + o.p as u64 <= 255,
+            129 => o.p != 0 && o.b as u64 + o.p as u64 <= 65535 && al + o.p as u64 <= 255,
             6 => al <= 56403 && o.scheme.is_some() && nb <= 255,
-            1 => al <= 8192 && o.scheme.is_some() && nb <= 65535,
+            1 => al <= 8192 && !raptor_small && o.scheme.is_some() && nb <= 65535,
             _ => true,
         }
     }
@@ -408,6 +422,9 @@ impl FdtEngine {
         self.latest_pub = Some((time, expiry));
         self.sup_gap = 0;
         self.sup_ref = Some(time);
+        self.due_polls = 0;
+        self.due_pending = 0;
+        self.pubs_noted += 1;
         self.sup_reported = false;
         self.stats_pubs += 1;
     }
@@ -586,6 +603,7 @@ impl FdtEngine {
                     ObjRec {
                         toi, loc, ctype, clen, tlen, cenc, md5, etag, groups, cc, oti, mtc,
                         carousel: car.is_some(),
+                        flags,
                         removed: false, finished: false, transferring: false, done: 0,
                     },
                 );
@@ -744,11 +762,25 @@ impl FdtEngine {
             Some(x) => x,
             None => return,
         };
-        if self.sup_reported || now < expiry || self.sup_gap > 1_000_000 {
+        let dur = self.cfg.as_ref().unwrap().dur_us;
+        // the polls the theorem counts: later than publish time + duration - 5 s (duration > 30 s), before the expiry
+        if dur > 30_000_000 && now > pt + dur - 5_000_000 && now < expiry {
+            if self.due_polls == 0 {
+                self.due_pending = self.pubs_noted.saturating_sub(self.insts.len() as u64);
+            }
+            self.due_polls += 1;
+        }
+        if self.sup_reported || now < expiry {
+            return;
+        }
+        // either polled at least every second since the publication (all durations) or - duration > 30 s - more due
+        // polls than instances that were waiting (Flute.Props.C10.superseded_before_expiry_partial)
+        let steady = self.sup_gap <= 1_000_000;
+        let enough_due = dur > 30_000_000 && self.due_polls > self.due_pending;
+        if !steady && !enough_due {
             return;
         }
         self.sup_reported = true;
-        let dur = self.cfg.as_ref().unwrap().dur_us;
         let class = if !self.admitted_now {
             "fdt-refused-no-successor"
         } else if dur <= 30_000_000 {
@@ -757,8 +789,8 @@ impl FdtEngine {
             "supersede-after-expiry"
         };
         o.fail(class, &format!(
-            "instance published at {} us (fdt_duration {} us, Expires = {} s) has no successor at the poll at {} us although polled at least every {} us",
-            pt, dur, expiry / 1_000_000 + NTP_OFF, now, self.sup_gap.max(1)));
+            "instance published at {} us (fdt_duration {} us, Expires = {} s) has no successor at the poll at {} us although polled {} (max gap {} us; {} polls later than publish + duration - 5 s before the expiry, {} instance(s) were queued)",
+            pt, dur, expiry / 1_000_000 + NTP_OFF, now, if steady { "at least every second" } else { "in the due window" }, self.sup_gap.max(1), self.due_polls, self.due_pending));
     }
 
     fn feed_fdt(&mut self, p: &[u8], first: Option<u32>, o: &mut Oracle) {
@@ -911,7 +943,7 @@ impl Engine for FdtEngine {
                 _ => "bad-op".into(),
             },
             "rx" => match (a.first().and_then(|x| x.parse::<u32>().ok()), a.get(1).and_then(|x| x.parse::<u64>().ok())) {
-                (Some(id), Some(now)) if a.len() == 2 => rx::op_rx(self, id, now, o),
+                (Some(id), Some(now)) if a.len() == 3 && ["a", "b", "c"].contains(&a[2]) => rx::op_rx(self, id, now, a[2], o),
                 _ => "bad-op".into(),
             },
             "cur" => match a.first().and_then(|x| x.parse::<u64>().ok()) {
